@@ -258,4 +258,124 @@ theorem countZeros_spec (B : Nat → Bool) (ws : List Nat) (hp : Packs ws B)
     exact (hp (i / 64) hi q (by omega)).symm
   rw [this]; omega
 
+/-! ### `selectIthOne`: inside one word -/
+
+theorem tzAux_spec (w : Nat) : ∀ (fuel k : Nat),
+    k ≤ tzAux w fuel k ∧ tzAux w fuel k ≤ k + fuel ∧ ∀ j, k ≤ j → j < tzAux w fuel k → w.testBit j = false
+  | 0, k => ⟨Nat.le_refl _, by simp [tzAux], by intro j h1 h2; simp [tzAux] at h2; omega⟩
+  | fuel + 1, k => by
+    unfold tzAux
+    by_cases h : w.testBit k = true
+    · rw [if_pos h]; exact ⟨Nat.le_refl _, by omega, by intro j h1 h2; omega⟩
+    · rw [if_neg h]
+      obtain ⟨h1, h2, h3⟩ := tzAux_spec w fuel (k + 1)
+      refine ⟨by omega, by omega, ?_⟩
+      intro j hj1 hj2
+      by_cases e : j = k
+      · subst e; simpa using h
+      · exact h3 j (by omega) hj2
+
+theorem tz64_spec (w : Nat) : tz64 w ≤ 64 ∧ ∀ j, j < tz64 w → w.testBit j = false := by
+  obtain ⟨_, h2, h3⟩ := tzAux_spec w 64 0
+  exact ⟨by simpa [tz64] using h2, fun j hj => h3 j (Nat.zero_le _) hj⟩
+
+/-- ones of the word below bit `b` -/
+def cnt (w b : Nat) : Nat := onesUpTo (fun j => w.testBit j) b
+
+theorem cnt_const_of_zero (w a : Nat) (hz : ∀ j, a ≤ j → w.testBit j = false) : ∀ b, a ≤ b → cnt w b = cnt w a := by
+  intro b hb
+  induction b with
+  | zero => have : a = 0 := by omega
+            subst this; rfl
+  | succ b ih =>
+    by_cases e : a = b + 1
+    · subst e; rfl
+    · unfold cnt at ih ⊢
+      rw [onesUpTo_succ, ih (by omega)]
+      simp only [hz b (by omega)]; simp
+
+theorem testBit_ge64 {w : Nat} (hw : w < 2 ^ 64) (j : Nat) (hj : 64 ≤ j) : w.testBit j = false := by
+  apply Nat.testBit_lt_two_pow
+  calc w < 2 ^ 64 := hw
+    _ ≤ 2 ^ j := Nat.pow_le_pow_right (by decide) hj
+
+theorem selInWord_spec (w0 : Nat) (hw0 : w0 < 2 ^ 64) : ∀ (fuel w bitIdx find : Nat),
+    w = w0 >>> bitIdx → 65 ≤ fuel + bitIdx →
+    match selInWord fuel w bitIdx find with
+    | .inl q => w0.testBit q = true ∧ cnt w0 q = cnt w0 bitIdx + find ∧ q < 64
+    | .inr f => cnt w0 64 + f = cnt w0 bitIdx + find
+  | 0, w, bitIdx, find, _, hf => by
+    simp only [selInWord]
+    have := cnt_const_of_zero w0 64 (fun j hj => testBit_ge64 hw0 j hj) bitIdx (by omega)
+    omega
+  | fuel + 1, w, bitIdx, find, hw, hf => by
+    unfold selInWord
+    by_cases hz : w = 0
+    · rw [if_pos hz]
+      simp only
+      have hzero : ∀ j, bitIdx ≤ j → w0.testBit j = false := by
+        intro j hj
+        have : (w0 >>> bitIdx).testBit (j - bitIdx) = false := by rw [← hw, hz]; simp
+        rw [Nat.testBit_shiftRight] at this
+        rwa [show bitIdx + (j - bitIdx) = j by omega] at this
+      rcases Nat.le_total bitIdx 64 with h | h
+      · have := cnt_const_of_zero w0 bitIdx hzero 64 h; omega
+      · have := cnt_const_of_zero w0 64 (fun j hj => testBit_ge64 hw0 j hj) bitIdx h; omega
+    · rw [if_neg hz]
+      have hbit0 : w0.testBit bitIdx = decide (w % 2 = 1) := by
+        have : w.testBit 0 = decide (w % 2 = 1) := Nat.testBit_zero w
+        rw [hw, Nat.testBit_shiftRight] at this
+        simpa using this
+      by_cases hfound : w % 2 = 1 ∧ find = 0
+      · rw [if_pos hfound]
+        simp only
+        have hb : w0.testBit bitIdx = true := by rw [hbit0]; simp [hfound.1]
+        refine ⟨hb, by omega, ?_⟩
+        rcases Nat.lt_or_ge bitIdx 64 with h | h
+        · exact h
+        · rw [testBit_ge64 hw0 _ h] at hb; exact absurd hb (by simp)
+      · rw [if_neg hfound]
+        simp only
+        obtain ⟨htz1, htz2⟩ := tz64_spec (w / 2)
+        have ih := selInWord_spec w0 hw0 fuel (w >>> (tz64 (w / 2) + 1)) (bitIdx + (tz64 (w / 2) + 1))
+          (find - w % 2) (by rw [hw, Nat.shiftRight_add]) (by omega)
+        -- the skipped bits are zero
+        have hskip : cnt w0 (bitIdx + (tz64 (w / 2) + 1)) = cnt w0 bitIdx + w % 2 := by
+          have hstep : cnt w0 (bitIdx + 1) = cnt w0 bitIdx + w % 2 := by
+            unfold cnt; rw [onesUpTo_succ]; simp only [hbit0]
+            have : w % 2 = 0 ∨ w % 2 = 1 := by omega
+            rcases this with h | h <;> simp [h]
+          have hzeros : ∀ t, t ≤ tz64 (w / 2) → cnt w0 (bitIdx + 1 + t) = cnt w0 (bitIdx + 1) := by
+            intro t
+            induction t with
+            | zero => intro _; rfl
+            | succ t iht =>
+              intro ht
+              have hbitz : w0.testBit (bitIdx + 1 + t) = false := by
+                have := htz2 t (by omega)
+                rw [Nat.testBit_div_two, hw, Nat.testBit_shiftRight] at this
+                rwa [show bitIdx + (t + 1) = bitIdx + 1 + t by omega] at this
+              have : cnt w0 (bitIdx + 1 + (t + 1)) = cnt w0 (bitIdx + 1 + t) := by
+                unfold cnt
+                rw [show bitIdx + 1 + (t + 1) = (bitIdx + 1 + t) + 1 by omega, onesUpTo_succ]
+                simp only [hbitz]; simp
+              rw [this]; exact iht (by omega)
+          have := hzeros (tz64 (w / 2)) (Nat.le_refl _)
+          rw [show bitIdx + (tz64 (w / 2) + 1) = bitIdx + 1 + tz64 (w / 2) by omega, this, hstep]
+        have hfind : find - w % 2 + w % 2 = find := by
+          have : w % 2 = 0 ∨ w % 2 = 1 := by omega
+          rcases this with h | h
+          · omega
+          · have : find ≠ 0 := fun h0 => hfound ⟨h, h0⟩
+            omega
+        cases hres : selInWord fuel (w >>> (tz64 (w / 2) + 1)) (bitIdx + (tz64 (w / 2) + 1)) (find - w % 2) with
+        | inl q =>
+          rw [hres] at ih
+          simp only at ih ⊢
+          exact ⟨ih.1, by omega, ih.2.2⟩
+        | inr f =>
+          rw [hres] at ih
+          simp only at ih ⊢
+          omega
+
 end DaeVerif.C11
